@@ -49,6 +49,8 @@ def run_symx(entry, params, opts, timeout_s, out_json, extra=()):
         cmd += ["-fuel", str(opts["fuel"])]
     if "maxpaths" in opts:
         cmd += ["-maxpaths", str(opts["maxpaths"])]
+    if opts.get("unwind_in"):
+        cmd += ["-unwind-in", opts["unwind_in"]]
     if opts.get("solver"):
         cmd += ["-solver", opts["solver"]]
     if params:
